@@ -81,7 +81,7 @@ ENUM_CWD_FIXED = '/srv/a b'
 ENUM_OS_ENVIRON = {'PATH': '/usr/bin:/bin', 'x': 'os x', 'C13_BASE': 'from os.environ'}
 ENUM_MAX_TOKENS = {'quick': 3, 'thorough': 4}
 ENUM_FULL_CWD_UPTO = {'quick': 2, 'thorough': 3}      # all 3 working_dir values for lines up to this length
-ENUM_GLUED_FULL_ENV_UPTO = 3      # glued lines longer than this: only env={'x': 'v w'}, copy_env off
+ENUM_GLUED_FULL_ENV_UPTO = {'quick': 2, 'thorough': 3}    # longer glued lines: only env={'x': 'v w'}, copy_env off
 ENUM_LIVE_LINES = {'quick': 6, 'thorough': 20}
 ENUM_MAX_MINIMISATIONS_PER_SHARD = 150
 
@@ -103,7 +103,7 @@ def bounds(tier):
         'env': ENUM_ENVS,
         'copy_env': [False, True],
         'env_x_copy_env': 'full 3 x 2 product, except glued lines of more than %d tokens: env={x: "v w"}, '
-                          'copy_env off only' % ENUM_GLUED_FULL_ENV_UPTO,
+                          'copy_env off only' % ENUM_GLUED_FULL_ENV_UPTO[tier],
         'working_dir': {'values': ENUM_CWDS,
                         'full_product_for_space_separated_lines_up_to_tokens': ENUM_FULL_CWD_UPTO[tier],
                         'otherwise_fixed_to': ENUM_CWD_FIXED},
@@ -127,7 +127,7 @@ def shards(tier):
                 continue
             plen = min(2, L - 1)
             cwds = 'all' if (sep == ' ' and L <= ENUM_FULL_CWD_UPTO[tier]) else 'fixed'
-            envs = 'all' if (sep == ' ' or L <= ENUM_GLUED_FULL_ENV_UPTO) else 'x'
+            envs = 'all' if (sep == ' ' or L <= ENUM_GLUED_FULL_ENV_UPTO[tier]) else 'x'
             for prefix in itertools.product(range(_NT), repeat=plen):
                 out.append({'L': L, 'prefix': list(prefix), 'sep': sep, 'cwds': cwds, 'envs': envs})
     out.append({'live': ENUM_LIVE_LINES[tier]})
